@@ -85,12 +85,38 @@ inductive T where
       string, else one `Text` segment with the UTF-8 bytes of `value` -/
   | str (value : Str)
   | tup (name : Option Str) (fields : List F)
+  /-- a chain of SEVERAL terms `first more…` (`Chain { terms }`, `more` non-empty). A chain of one term
+      is represented by that term itself: fields and steps hold a `T` that is either a term or a
+      `chain`; the terms of a chain are never chains (`T.WF`). -/
+  | chain (first : T) (more : List T)
 inductive F where
   | mk (label : Option Str) (value : T)
 end
 
 instance : Inhabited T := ⟨.leaf []⟩
 instance : Inhabited F := ⟨.mk none default⟩
+
+/-- a term (`primary`), not a chain of several terms -/
+def isPrim : T → Bool
+  | .chain _ _ => false
+  | _ => true
+
+/-- `is_call_ender`: `Term::Access` (a bare identifier here) -/
+def isIdent : T → Bool
+  | .leaf _ => true
+  | _ => false
+
+/-- `is_breakable_container`: a tuple with fields -/
+def isContainer : T → Bool
+  | .tup _ (_ :: _) => true
+  | _ => false
+
+/-- Step 3a restriction on a chain of several terms: no term but the last is a bare identifier (so the
+    chain is a JUXTAPOSITION chain, argument-first application `[x, y] f`, never a `~>` pipeline and
+    never a "tall" step) and the last term is not a tuple with fields (so `chain_doc` never takes its
+    flattened-head path). The formatter and parser MODELS cover all chains; the theorems need this. -/
+def chainOk (first : T) (more : List T) : Bool :=
+  ((first :: more).dropLast.all fun t => !isIdent t) && !isContainer ((first :: more).getLastD first)
 
 /-- an optional name is in the language of the given lexical class -/
 def optOk (ok : Str → Bool) : Option Str → Prop
@@ -105,6 +131,11 @@ def T.WF : T → Prop
   | .bin bs => ∀ b ∈ bs, b < 256
   | .str _ => True
   | .tup name fs => optOk isTupleNameStr name ∧ F.WFList fs
+  | .chain t more => more ≠ [] ∧ isPrim t = true ∧ T.WF t ∧ T.WFTerms more ∧ chainOk t more = true
+/-- the further terms of a chain: terms, well-formed -/
+def T.WFTerms : List T → Prop
+  | [] => True
+  | t :: ts => (isPrim t = true ∧ T.WF t) ∧ T.WFTerms ts
 def F.WF : F → Prop
   | .mk l t => optOk isIdentStr l ∧ T.WF t
 def F.WFList : List F → Prop
@@ -137,6 +168,32 @@ def pageWidth : Nat := 100
 def chainDoc (term : Doc) : Doc :=
   .concat [.nil, Doc.mkGroup (breakIfWiderThan (.concat [term]) chainSoftWidth)]
 
+/-- the parts of `chain_terms_doc` after the first term: after a call-ender a `line` and the `~> ` that
+    shows only when the chain is broken, else a space; `prev` = the previous term is a call-ender -/
+def chainParts : Bool → List Bool → List Doc → List Doc
+  | prev, e :: es, d :: ds =>
+    (if prev then [.line, .ifBreak (.text ['~', '>', ' ']) .nil] else [.text [' ']]) ++ d :: chainParts e es ds
+  | _, _, _ => []
+
+/-- `[..].join(" ")` -/
+def joinSp : List Str → Str
+  | [] => []
+  | [s] => s
+  | s :: ss => s ++ ' ' :: joinSp ss
+
+/-- `chain_doc` of a chain of several terms without pattern: `enders` = `is_call_ender` per term,
+    `lastContainer` = `is_breakable_container(last)`, `docs` = `term_doc` per term. A chain ending in a
+    container keeps its head flat on one line (unless a head term forces a break); otherwise
+    `group(break_if_wider_than(chain_terms_doc, 50))`. -/
+def multiChainDoc (enders : List Bool) (lastContainer : Bool) (docs : List Doc) : Doc :=
+  match enders, docs with
+  | e :: es, d :: ds =>
+    if lastContainer && !(docs.dropLast.any forcesBreak) then
+      .concat [.nil, .text (joinSp (docs.dropLast.map flatten)), .text [' '], docs.getLastD d]
+    else
+      .concat [.nil, Doc.mkGroup (breakIfWiderThan (.concat (d :: chainParts e es ds)) chainSoftWidth)]
+  | _, _ => .nil
+
 /-- `field_doc` without trivia around the field's value doc -/
 def fieldDoc (value : Doc) : Doc := .concat [.nil, value, .nil]
 
@@ -156,30 +213,53 @@ def termDoc : T → Doc
   | .bin bs => .text (binText bs)
   | .str v => .text (strText v)
   | .tup name fs => if fs.isEmpty then .text (emptyText name) else bracketed (openText name) (fieldDocs fs)
+  | .chain t more =>
+    multiChainDoc (isIdent t :: more.map isIdent) (isContainer ((t :: more).getLastD t))
+      (termDoc t :: termDocs more)
+def termDocs : List T → List Doc
+  | [] => []
+  | t :: ts => termDoc t :: termDocs ts
 /-- `field_doc`: `chain_doc`, behind `name: ` for a named field -/
 def fieldDocOf : F → Doc
-  | .mk none t => fieldDoc (chainDoc (termDoc t))
-  | .mk (some l) t => fieldDoc (.concat [.text (l ++ [':', ' ']), chainDoc (termDoc t)])
+  | .mk none t => fieldDoc (if isPrim t then chainDoc (termDoc t) else termDoc t)
+  | .mk (some l) t =>
+    fieldDoc (.concat [.text (l ++ [':', ' ']), if isPrim t then chainDoc (termDoc t) else termDoc t])
 def fieldDocs : List F → List Doc
   | [] => []
   | f :: fs => fieldDocOf f :: fieldDocs fs
 end
 
+/-- `chain_doc` of a field value or step: of the one-term chain `t`, or of the chain `t` is -/
+def chainDocOf (t : T) : Doc := if isPrim t then chainDoc (termDoc t) else termDoc t
+
+/-- `is_tall_step`: a pipeline (a call-ender before the last term) that does not end in a container
+    and whose doc forces a break -/
+def isTall (t : T) (body : Doc) : Bool :=
+  match t with
+  | .chain f more =>
+    !isContainer ((f :: more).getLastD f) && ((f :: more).dropLast.any isIdent) && forcesBreak body
+  | _ => false
+
 /-- the step separator of `sequence_doc_with`: `, ` inline, a bare newline when the sequence is broken
     (comma and newline are synonyms) -/
 def seqSepDoc : Doc := .concat [.ifBreak .nil (.text [',']), .line]
 
-/-- the `rest` of `sequence_doc_with`: separator and item for every step after the first. None of the
-    special cases applies on the fragment: a one-term chain is never "tall", no step starts with `(`
-    (`glued`) or with a block (`needs_explicit_comma`). -/
-def restDocs : List T → List Doc
-  | [] => []
-  | t :: ts => seqSepDoc :: fieldDoc (chainDoc (termDoc t)) :: restDocs ts
+/-- the `rest` of `sequence_doc_with`: separator and item for every step after the first; a "tall"
+    step is set off from its neighbours by a blank line (two hard lines) instead. No step of the
+    fragment starts with `(` (`glued`) or with a block (`needs_explicit_comma`). `prevTall` = the
+    previous step is tall. -/
+def restDocs : Bool → List T → List Doc
+  | _, [] => []
+  | prevTall, t :: ts =>
+    let tall := isTall t (chainDocOf t)
+    (if prevTall || tall then [.hardline, .hardline] else [seqSepDoc]) ++
+      fieldDoc (chainDocOf t) :: restDocs tall ts
 
 /-- `sequence_doc_with` without trivia: `group(concat [first, nest(0, concat rest)])` -/
 def sequenceDoc : List T → Doc
   | [] => Doc.mkGroup (.concat [.nil, .nest 0 (.concat [])])
-  | t :: ts => Doc.mkGroup (.concat [fieldDoc (chainDoc (termDoc t)), .nest 0 (.concat (restDocs ts))])
+  | t :: ts =>
+    Doc.mkGroup (.concat [fieldDoc (chainDocOf t), .nest 0 (.concat (restDocs (isTall t (chainDocOf t)) ts))])
 
 /-- the `Doc` of `format_program` for the program whose only statement is the sequence of the one-term
     chains `ts` (the parser makes ONE sequence of all the comma/newline-separated expressions) -/
@@ -196,6 +276,23 @@ def fmtFrag (ts : List T) : List Char :=
   | none => "<panic: literal index out of range>".toList
 
 /-! ### text → AST (parser.rs) -/
+
+/-- `hspace1` -/
+def hspace1 : P Unit := fun i =>
+  match i with
+  | c :: r => if Parse.isHspace c then .ok () (r.dropWhile Parse.isHspace) else .err i .space
+  | [] => .err i .space
+
+/-- the separator of `chain_inner`: `alt((tuple((ws1, tag("~>"), ws1)), hspace1))` -/
+def chainSep : P Unit := alt (seq ws1 (seq (ptag ['~', '>']) ws1)) hspace1
+
+/-- `chain` = `chain_inner` = `separated_list1(chainSep, primary)` (the speculative `pattern =`
+    alternative fails at the `=`); one term is that term, several are a `chain` -/
+def chainP (term : P T) : P T :=
+  pmap (sepList1 chainSep term) fun
+    | [t] => t
+    | t :: ts => .chain t ts
+    | [] => default
 
 /-- `tuple_field`: `separated_pair(identifier, (char(':'), ws1), chain)` for a named field, else the
     chain (the two spread alternatives in between fail at the first character on fragment texts). -/
@@ -265,7 +362,7 @@ def stringP : P T := fun i =>
     exhausted). -/
 def termP : Nat → P T
   | 0 => fun _ => .out
-  | n + 1 => alt stringP (alt literalP (alt (tupleP (fieldP (termP n))) (pmap identifier T.leaf)))
+  | n + 1 => alt stringP (alt literalP (alt (tupleP (fieldP (chainP (termP n)))) (pmap identifier T.leaf)))
 
 /-- `eof` -/
 def peof : P Unit := fun i =>
@@ -275,7 +372,7 @@ def peof : P Unit := fun i =>
 
 /-- `sequence` = `terminated(separated_list1(seq_sep, chain), opt(seq_sep))`; a chain of the
     fragment is one `primary` (the speculative `pattern =` alternative of `chain` fails at the `=`). -/
-def sequenceP (n : Nat) : P (List T) := before (sepList1 seqSep (termP n)) (opt seqSep)
+def sequenceP (n : Nat) : P (List T) := before (sepList1 seqSep (chainP (termP n))) (opt seqSep)
 
 /-- `program` = `delimited(ws_with_comments, terminated(separated_list0(seq_sep, top_level_item),
     opt(seq_sep)), pair(ws_with_comments, eof))`; `top_level_item` = type alias (fails at the first
